@@ -283,7 +283,7 @@ def c09_tier_b(tier, quick_s=60, thorough_s=1200, write=True):
 def ex_run(seed, prop, i, fault_free, collectors=("zero", "copy", "sweep", "swiper"), codegens=("cannon", "boots")):
     wl = tb.stream(seed, prop, i, "workload")
     cfg = tb.stream(seed, prop, i, "config")
-    gc = cfg.choices(list(collectors), [1 if c == "zero" else 4 for c in collectors])[0]
+    gc = cfg.choices(list(collectors), [2 if c == "zero" else 4 for c in collectors])[0]
     cg = cfg.choice(list(codegens))
     heap_mb = cfg.choice([4, 8, 16, 32])
     script = mx.generate(wl, heap_mb << 20, gc)
